@@ -122,6 +122,16 @@ def rule_i2(repo, col):
         col.decide("I2", m, node, cls.name in reach, "%s is reachable from LogicProgram through registered transformations" % cls.name,
                    "no chain of registered transformations leads from LogicProgram to %s: get_evaluatable(%r).create_from(program) raises" % (cls.name, name),
                    construct="_evaluatables[%r]: transformation path" % name, function="<module>")
+    # named back-ends are used with the default (disjoint-sum) semirings: they must be compiled forms that solve the disjoint-sum problem
+    dsp = repo.cls(EV, "EvaluatableDSP")
+    NON_DSP_OK = {"kbest": "anytime bounds evaluator: computes lower/upper bounds over explanations, not a circuit evaluation"}
+    for name, (cls, node) in sorted(evs.items()):
+        if cls is None:
+            continue
+        isdsp = any(x is dsp for x in repo.mro(cls))
+        col.decide("I2", m, node, isdsp or name in NON_DSP_OK, "%r -> %s solves the disjoint-sum problem%s" % (name, cls.name, "" if isdsp else " (table: %s)" % NON_DSP_OK.get(name)),
+                   "registry entry %r maps to %s, which is not an EvaluatableDSP: evaluating it with the probability semirings adds the weights of overlapping disjuncts "
+                   "(P(a or b) = P(a) + P(b))" % (name, cls.name), construct="_evaluatables[%r]: disjoint-sum capable" % name, function="<module>")
     col.floor("I2.registry_entries", len(evs), 7)
 
 
@@ -263,6 +273,10 @@ def rule_i5(repo, col):
                 problems.append("with evidence the result must be normalised by the evidence weight")
             if norm_calls and norm_calls[0][1] != "self._get_z()":
                 problems.append("normalisation must use self._get_z()")
+        if ("%s == 0" % node, True) in conds and ("self.semiring.is_nsp()", True) in conds:
+            nc = [a for fn, a, _ in p.calls if fn == "self.semiring.normalize"]
+            if not nc or nc[0][1] != "self._get_z()":
+                problems.append("for a neutral-sum semiring the TRUE query is the root weight normalised by self._get_z() (found %s)" % (nc or "no normalisation"))
         if ("%s is None" % node, True) in conds and p.end == "return" and "self.semiring.zero()" not in (p.value or ""):
             problems.append("the FALSE key must evaluate to zero()")
     if n_gen < 2:
